@@ -324,6 +324,7 @@ struct Driver {
   // C05: with failures left in the budget, everything independent must have
   // run; and a failed command is retried while the cause persists.
   void CheckFailureFollowUp(const InvRecord& r) {
+    if (!w.missing_source.empty()) return;   // stopped on a graph error, not on a failed command
     if (r.res.end != ProcResult::kExit || r.res.exit_code == 0 || r.interrupted || r.external_edit || r.plan.dry) return;
     for (auto& kv : r.res.fired) if (kv.first != "crash" && kv.first.compare(0, 3, "io_") == 0) return;
     std::set<int> failed;
